@@ -4,8 +4,9 @@
 -/
 import EG.Lemmas.Target
 namespace EG
+open Tgt
 
-theorem getElem?_flatMap_const {α β : Type} (l : List α) (f : α → List β) (n : Nat)
+theorem Tgt.getElem?_flatMap_const {α β : Type} (l : List α) (f : α → List β) (n : Nat)
     (h : ∀ a ∈ l, (f a).length = n) (j i : Nat) (hi : i < n) :
     (l.flatMap f)[j * n + i]? = (l[j]?).bind (fun a => (f a)[i]?) := by
   induction l generalizing j with
